@@ -34,7 +34,7 @@ func (e *env) reports(idx int64, known, unk []Spelling) int64 {
 	c := e.c
 	var from []Spelling
 	for _, s := range known {
-		if s.Form == "lower" || (c.Thorough() && (s.Form == "upper+plural" || s.Form == "title")) {
+		if s.Form == "lower" || s.Form == "display" || (c.Thorough() && (s.Form == "upper+plural" || s.Form == "title")) {
 			from = append(from, s)
 		}
 	}
@@ -142,6 +142,51 @@ func (e *env) reportCase(from, opt Spelling, vp [2]int64) {
 		if from.Ref.Known() {
 			c.Nontrivial(fmt.Sprintf("top %s %s %d", from.S, opt.S, v))
 		}
+		// the report-wide unit of the default / "minimum" mode is chosen from the smallest entry
+		// shown (at worst 0.01 of it), and "auto" scales every value by itself: no entry that has
+		// a value may be printed as a bare 0
+		if from.Ref.Known() && (opt.Form == "default" || opt.Form == "mode") && v != 0 && lb == "0" {
+			c.Violationf("report/nonzero-entry-printed-as-zero", cs, "flat value of %s (%d %s) printed as %q\n%s", row[1], v, from.S, lb, r.Out)
+		}
+	}
+	// negation: the report of the negated profile shows the same labels with the opposite sign
+	// (unit choice and formatting look at magnitudes only)
+	an := &ap.AP{Types: a.Types, Maps: a.Maps, Stacks: []ap.Stack{oneFrame("a", 0x1000, -vp[0]), oneFrame("b", 0x2000, -vp[1])}}
+	c.Eval()
+	rn := drive.Report(map[string][]byte{"p": drive.Encode(ap.Concretize(an, ap.Opts{}))}, []string{"p"}, flags...)
+	if rn.Panic != nil {
+		c.Violationf("panic/top", cs, "negated profile: panic: %v\n%s", rn.Panic, rn.Stack)
+		return
+	}
+	if rn.Err != nil {
+		c.Violationf("report/negation", cs, "the report of the negated profile fails: %v", rn.Err)
+		return
+	}
+	rowsN, okN := topRows(rn.Out)
+	if !okN {
+		c.Count("unparsed/top", 1)
+		return
+	}
+	lab := map[string]string{}
+	for _, row := range rows {
+		lab[row[1]] = row[0]
+	}
+	for _, row := range rowsN {
+		want, ok := lab[row[1]]
+		if !ok {
+			continue
+		}
+		switch {
+		case strings.HasPrefix(want, "-"):
+			want = want[1:]
+		case want != "0":
+			want = "-" + want
+		}
+		if row[0] != want {
+			c.Violationf("report/negation", cs, "flat value of %s: %q in the report, %q in the report of the negated profile (want %q)\n%s\n%s", row[1], lab[row[1]], row[0], want, r.Out, rn.Out)
+			break
+		}
+		c.Count("report/negation-mirrored", 1)
 	}
 }
 
